@@ -601,8 +601,10 @@ def recipes_p9b(repo, res):
 
 def run(repo, res, tier):
     res.rules = ["P1 composition/anchoring (FRAME)", "P2 rotate_from_* delegation", "P3 reject-before-mutate", "P4 paired pose writes / who-may-write", "P5 in-place pose writes", "P6 one padding computation", "P6b constructor pads for both length orderings",
-                 "P7 None is the single identity rotation", "P8 no read-only view becomes a pose path", "P9 LEN-PATH: path lengths consistent for every case of lengths / start / anchor"]
+                 "P7 None is the single identity rotation", "P8 no read-only view becomes a pose path", "P9 LEN-PATH: path lengths consistent for every case of lengths / start / anchor", "P10 pose-path gates reject empty input"]
     frame_rules.c09_p1(repo, res)
+    from props import c17 as _c17
+    _c17.nonempty_gates(repo, res, "P10")       # "paths always have equal length >= 1": nothing of length 0 gets in
     p2(repo, res)
     p3(repo, res)
     p4(repo, res)
